@@ -114,3 +114,8 @@ package xml
 //@   ensures[F,C11] @content: result0 == TextToken || result0 == CommentToken || result0 == CDATAToken || result0 == DOCTYPEToken || result0 == EndTagToken ==> !old(l.inTag) && !l.inTag
 //@   ensures[F,C11] @nul: result0 == ErrorToken ==> l.err != nil || l.r.pos == len(l.r.buf)-1
 //@   ensures[F,C11] @nul-err: result0 == ErrorToken && l.r.pos < len(l.r.buf)-1 && l.r.err == nil ==> l.err != nil && l.r.buf[l.r.pos] == 0
+
+//@ func Lexer.Err
+//@   requires[S] l != nil && l.r != nil && bufInv(l.r)
+//@ func NewLexer
+//@   ensures[S]  result != nil && result.r == r && !result.inTag && result.err == nil
